@@ -37,6 +37,7 @@ type Plan struct {
 	Byz        []ByzNd  `json:"faulty,omitempty"`
 	Faults     []Fault  `json:"faults,omitempty"`
 	Inject     []Inject `json:"inject,omitempty"` // adversarial wire messages at timed instants
+	ViewParts  []ViewPart `json:"viewPartitions,omitempty"` // Twins-style: who can talk to whom while the sender is in that view
 	HealAtMs   int      `json:"healAtMs,omitempty"`
 	PrefixViews int     `json:"prefixViews,omitempty"` // C05: the synchronous phase starts no later than this view
 	Sync       []int    `json:"syncQuorum,omitempty"` // C05: members of the synchronous quorum after HealAtMs
@@ -47,6 +48,13 @@ type Plan struct {
 	Knobs      map[string]int `json:"knobs,omitempty"`
 
 	Violation *Violation `json:"violation,omitempty"`
+}
+
+// ViewPart is a network partition tied to a view: a message is carried only if, in the sender's current view,
+// sender and receiver are in the same group. Addresses as in Fault.Groups (a twin is the negative id).
+type ViewPart struct {
+	View   int     `json:"view"`
+	Groups [][]int `json:"groups"`
 }
 
 type ViewDur struct {
@@ -260,6 +268,9 @@ func GenPlan(prop string, seed uint64) *Plan {
 	g := newGen(seed, 1)
 	pr := profileFor(prop)
 	p := &Plan{Version: 1, Property: prop, Seed: seed, Inner: g.u64(), World: "consensus"}
+	if (prop == "C01" && g.p(0.65)) || (prop == "C03" && g.p(0.35)) {
+		return genTwinsScenario(g, p)
+	}
 
 	p.N = pick(g, 4, 4, 4, 4, 7, 7)
 	if prop == "C09" && g.p(0.4) {
@@ -529,6 +540,84 @@ func GenPlan(prop string, seed uint64) *Plan {
 			p.Inject = append(p.Inject, in)
 		}
 	}
+	return p
+}
+
+// genTwinsScenario shapes a run after the Twins methodology (Bano et al.): a small cluster, one replica duplicated
+// (both copies run the honest code with the same identity and key), a leader named for every view — often the
+// duplicated replica — and a partition of all copies per view. Unlike the repository's lock-step Twins executor,
+// delivery inside a partition group is asynchronous (seeded delays, reordering), timers are real, and views are
+// entered when the protocol enters them. Short runs, so many of them.
+func genTwinsScenario(g *gen, p *Plan) *Plan {
+	p.N = pick(g, 4, 4, 4, 4, 7)
+	p.Ruleset = pick(g, "chainedhotstuff", "simplehotstuff") // (fasthotstuff commits nothing on this tree: known finding K1)
+	p.Crypto = "eddsa"
+	p.Cache = 0
+	p.SyncVerify = true
+	p.Wire = false
+	p.Knobs = map[string]int{"memoVerify": 1}
+	p.ViewDur = ViewDur{Kind: "fixed", Ms: 40}
+	p.Batch = 1
+	p.Filler = true
+	p.Queue = 1 << 16
+	p.Links = LinkCfg{BaseUs: 200, JitterUs: pick(g, 0, 0, 500, 4000)}
+	views := g.rng(5, 14)
+	f := (p.N - 1) / 3
+	twins := g.subset(p.N, g.rng(1, f))
+	for _, id := range twins {
+		p.Byz = append(p.Byz, ByzNd{ID: id, Kind: "twin"})
+	}
+	addrs := []int{}
+	for id := 1; id <= p.N; id++ {
+		addrs = append(addrs, id)
+	}
+	for _, id := range twins {
+		addrs = append(addrs, -id)
+	}
+	p.Leader = "scripted"
+	for v := 1; v <= views; v++ {
+		if g.p(0.45) {
+			p.PrefixScript = append(p.PrefixScript, twins[g.intn(len(twins))])
+		} else {
+			p.PrefixScript = append(p.PrefixScript, g.rng(1, p.N))
+		}
+		if g.p(0.2) {
+			continue // everybody connected in this view
+		}
+		k := 2
+		if g.p(0.3) {
+			k = 3
+		}
+		groups := make([][]int, k)
+		if g.p(0.6) {
+			// one side can make progress on its own: a quorum of distinct replicas in the first group
+			ids := g.subset(p.N, p.N-f)
+			in := map[int]bool{}
+			for _, id := range ids {
+				in[id] = true
+			}
+			for _, a := range addrs {
+				switch {
+				case a > 0 && in[a]:
+					groups[0] = append(groups[0], a)
+				case a < 0 && g.p(0.5):
+					groups[0] = append(groups[0], a) // the duplicate sits with the majority
+				default:
+					groups[1+g.intn(k-1)] = append(groups[1+g.intn(k-1)], a)
+				}
+			}
+		} else {
+			for _, a := range addrs {
+				i := g.intn(k)
+				groups[i] = append(groups[i], a)
+			}
+		}
+		p.ViewParts = append(p.ViewParts, ViewPart{View: v, Groups: groups})
+	}
+	// after the scenario: connected, round-robin leaders, a few more views so that what was prepared gets committed
+	p.MaxViews = views + g.rng(4, 8)
+	p.UntilMs = (p.MaxViews + 4) * p.ViewDur.Ms
+	p.MaxSteps = 60000
 	return p
 }
 
